@@ -149,7 +149,7 @@ impl<'a, T: 'static, M: MemBuilder + 'a> AnyVecTyped<'a, T, M>{
 
     #[inline]
     pub fn drain(&mut self, range: impl RangeBounds<usize>)
-        -> impl ElementIterator<Item = T> + 'a
+        -> impl ElementIterator<Item = T> + '_
     {
         let Range{start, end} = into_range(self.len(), range);
         Iter(Drain::new(
@@ -163,7 +163,7 @@ impl<'a, T: 'static, M: MemBuilder + 'a> AnyVecTyped<'a, T, M>{
 
     #[inline]
     pub fn splice<I>(&mut self, range: impl RangeBounds<usize>, replace_with: I)
-        -> impl ElementIterator<Item = T> + 'a
+        -> impl ElementIterator<Item = T> + '_
     where
         I: IntoIterator<Item = T>,
         I::IntoIter: ExactSizeIterator + 'a,
